@@ -55,3 +55,15 @@ CLAIMED["C14"] = ("panic-site obligations over the token functions + provenance-
   "level: totality of the decoder is a for-all over strings settled by length facts; field coverage is a finite table; value equality of the "
   "CBOR/JSON round trip is library behaviour and is not claimed.",
   TRUST, "DESIGN.md §3 C14")
+CLAIMED["C12"] = ("edge-cut with disjunctive accept sets over the P2PK verifier, counting-discipline and existential-scan path rules, forall-loop summaries of the output verifier",
+  "Decides on every path that the P2PK verifier accepts only through its spending alternatives with correct expiry direction, thresholds, key "
+  "lists and hashes; that HasValidSignatures counts each key once; that the SIG_ALL scan is order-independent; that swap/melt honour SIG_ALL; "
+  "that the output verifier demands equal conditions over all inputs and enough signatures on every output; that signing helpers and verifiers "
+  "agree on the message; that every locked input is dispatched to its verifier. Right level: these are all-path code-shape facts; the full "
+  "configuration x witness truth table is not claimed.",
+  TRUST, "DESIGN.md §3 C12")
+CLAIMED["C13"] = ("edge-cut with disjunctive accept sets over the HTLC verifier + forall-loop summaries + helper/verifier message agreement",
+  "Decides on every path that the HTLC verifier accepts only through {expiry alternatives with refund threshold exactly 1, preimage facts with "
+  "optional signature threshold}, that every SIG_ALL output of an HTLC passes the preimage and signature facts, that the nut11/nut14 helpers "
+  "hash what the mint verifies and the can-sign scan is existential, plus the rules shared with C12. The truth table itself is not claimed.",
+  TRUST, "DESIGN.md §3 C13")
